@@ -3,6 +3,12 @@ import numpy as np
 from ..utils import norm_vector, EPSILON
 
 
+# Two halfplanes are parallel if the sine of the angle between them is smaller
+PARALLEL_EPSILON = 1e-12
+# A point is outside of a halfplane if it is further away than this distance
+DISTANCE_EPSILON = 1e-10
+
+
 # replaces from numba.np.extensions import cross2d, which seems to have a bug
 # when called with NUMBA_DISABLE_JIT=1
 @numba.njit(
@@ -17,7 +23,8 @@ def cross2d(a, b):
     cache=True)
 def intersect_two_halfplanes(halfplane1, halfplane2):
     denom = cross2d(halfplane1[2:], halfplane2[2:])
-    if abs(denom) < EPSILON:
+    if abs(denom) <= PARALLEL_EPSILON * np.linalg.norm(
+            halfplane1[2:]) * np.linalg.norm(halfplane2[2:]):
         return np.empty(0, dtype=np.dtype("float"))
     t = cross2d((halfplane2[:2] - halfplane1[:2]), halfplane2[2:]) / denom
     return halfplane1[:2] + halfplane1[2:] * t
@@ -27,7 +34,12 @@ def intersect_two_halfplanes(halfplane1, halfplane2):
     numba.bool_(numba.float64[::1], numba.float64[::1]),
     cache=True)
 def point_outside_of_halfplane(halfplane, point):
-    return cross2d(halfplane[2:], point - halfplane[:2]) < -EPSILON
+    # The cross product is the signed distance to the boundary line times the
+    # length of the direction vector. Points on the boundary (e.g. of
+    # coinciding halfplanes of two tetrahedra with coplanar faces) have to be
+    # accepted despite of rounding errors.
+    return (cross2d(halfplane[2:], point - halfplane[:2])
+            < -DISTANCE_EPSILON * np.linalg.norm(halfplane[2:]))
 
 
 @numba.njit(
